@@ -132,6 +132,16 @@ def matcherCoverB (n m : Nat) (ms : List MEntry) : Bool :=
   ms.all (fun e => (e.src.isSome || e.tgt.isSome) && decide (0 ≤ e.aff) && decide (e.aff ≤ 1) &&
     ((e.src.isSome && e.tgt.isSome) || e.aff == 0))
 
+/-- every position below `n` occurs exactly once in `l`, and nothing else does -/
+def exactlyOnceB (n : Nat) (l : List Nat) : Bool :=
+  (List.range n).all (fun i => l.count i == 1) && l.all (fun i => decide (i < n))
+
+/-- executable statement of "every annotated and every predicted sound event appears in exactly
+    one match" for the matches of one clip, given as (source position, target position) -/
+def holdsCoverB (nP nA : Nat) (ms : List (Option Nat × Option Nat)) : Bool :=
+  exactlyOnceB nP (ms.filterMap (·.1)) && exactlyOnceB nA (ms.filterMap (·.2)) &&
+  ms.all (fun m => m.1.isSome || m.2.isSome)
+
 /-- a prediction clip with the matcher's answer for it -/
 structure PredClip where
   events : List SEPred
